@@ -165,7 +165,16 @@ def degenerate(rng, depth=3):
         if k == "semantics":
             return "<semantics>%s<annotation encoding='application/x-tex'>x^2</annotation><annotation-xml encoding='MathML-Content'><ci>x</ci></annotation-xml></semantics>" % arg(d)
         return tok()
-    return "<math>%s</math>" % "".join(arg(depth) for _ in range(rng.randint(1, 4)))
+    out = "<math>%s</math>" % "".join(arg(depth) for _ in range(rng.randint(1, 4)))
+    if rng.random() < 0.35:
+        # author attributes (intent machinery, ids, styling) on rows and tokens
+        def add(m):
+            if rng.random() < 0.3:
+                a = rng.choice([' arg="a"', ' arg="b"', ' intent=":x"', ' id="i%d"' % rng.randint(0, 9), ' mathcolor="red"', ' class="k"', " data-latex=\"f'\"", ' arg="c"'])
+                return "<%s%s%s" % (m.group(1), a, m.group(2))
+            return m.group(0)
+        out = re.sub(r"<(mrow|mi|mn|mo|mfrac|msup)(>|/>)", add, out)
+    return out
 
 
 # ---------------------------------------------------------------- shrinking a failing input
